@@ -138,3 +138,19 @@ Section Convert.
         * destruct o; cbn [txt_empty_full round_obj] in *; assumption.
   Qed.
 End Convert.
+
+
+(* ---- the format named by a path is the one of the suffix after its LAST dot, whatever dots come before ---- *)
+Lemma after_last_dot_none ext : ~ In 46 ext -> after_last_dot ext = None.
+Proof.
+  induction ext as [|c t IH]; intros H; [reflexivity|]. cbn [after_last_dot]. rewrite IH by (intro K; apply H; right; exact K).
+  replace (c =? 46) with false; [reflexivity|]. symmetry. apply Z.eqb_neq. intro E. apply H. left. exact E.
+Qed.
+Theorem suffix_after_last_dot pre ext : ~ In 46 ext -> after_last_dot (pre ++ 46 :: ext) = Some ext.
+Proof.
+  intros H. induction pre as [|c t IH]; cbn [app after_last_dot].
+  - rewrite after_last_dot_none by exact H. reflexivity.
+  - rewrite IH. reflexivity.
+Qed.
+Theorem format_from_last_suffix pre ext : ~ In 46 ext -> fmt_of_path (pre ++ 46 :: ext) = fmt_of_suffix (suffix_class ext).
+Proof. intros H. unfold fmt_of_path, suffix_of_path. rewrite suffix_after_last_dot by exact H. reflexivity. Qed.
